@@ -16,6 +16,9 @@ type PlanningContext struct {
 	Request    *requests.Request
 	Schema     *ast.Schema
 	TypeURLMap merger.TypeURLMap
+
+	// helper fields (id, __typename) which client selected by himself, by the path of the field they are selected below
+	selectedHelpers map[string][]selectedHelper
 }
 
 func (pc *PlanningContext) GetURL(typename, fieldname, fburl string) (string, error) {
